@@ -1,4 +1,5 @@
 import Kio.Proofs.Decode
+import Kio.Proofs.Steps
 import Kio.Proofs.Codec
 import Kio.Model.Current
 import Kio.Generated.All
@@ -32,5 +33,41 @@ theorem keyError_reachable_when_not_skipping :
     ∃ (s : Schema) (bs : Bytes), s.wf (Env.shipped []) = true ∧
       dec (Env.shipped []) s bs = .error .keyError :=
   ⟨.mk 0 true false [], [1, 99, 0], by decide, by rfl⟩
+
+/-- **linear time**: the instrumented decoder (`Schema.readS`, which erases to `Schema.read`)
+    takes at most two steps per consumed byte on a coherent class -/
+theorem linear_steps (env : Env) (s : Schema) (hwf : s.wf env = true) (bs : Bytes) (v : Value)
+    (rest : Bytes) (h : s.read env bs = .ok (v, rest)) :
+    ∃ n, s.readS env bs = .ok (v, rest, n) ∧ n ≤ 2 * (bs.length - rest.length) :=
+  Kio.Schema.read_steps_le env s hwf bs v rest h
+
+/-- the step-counting decoder computes exactly what the decoder computes -/
+theorem steps_erase (env : Env) (s : Schema) (bs : Bytes) :
+    (s.readS env bs).map (fun p => (p.1, p.2.1)) = s.read env bs :=
+  Kio.Schema.readS_erase env s bs
+
+set_option maxRecDepth 100000 in
+theorem shipped_coherent :
+    allOk (Schema.wf (Env.current Generated.errorCodes)) Generated.allClasses = true := by
+  decide +kernel
+
+theorem allOk_mem {α} {p : α → Bool} {l : List α} (h : allOk p l = true) {x : α} (hx : x ∈ l) :
+    p x = true := by
+  induction l with
+  | nil => cases hx
+  | cons a as ih =>
+    simp only [allOk, Bool.and_eq_true] at h
+    rcases List.mem_cons.mp hx with rfl | hx
+    · exact h.1
+    · exact ih h.2 hx
+
+/-- C10 (error classes) for the shipped classes in the model of the tree as it is now -/
+theorem shipped_errors_allowed (s : Schema) (hs : s ∈ Generated.allClasses)
+    (hskip : (Env.current Generated.errorCodes).skipUnknownTags = true) (bs : Bytes) (e : Err)
+    (h : dec (Env.current Generated.errorCodes) s bs = .error e) : e.allowed = true :=
+  errors_allowed _ hskip s (allOk_mem shipped_coherent hs) bs e h
+
+/-- the current tree skips unknown tags (so the hypothesis above is met) -/
+theorem current_skips : (Env.current Generated.errorCodes).skipUnknownTags = true := rfl
 
 end Kio.C10
